@@ -49,7 +49,8 @@ TRUSTED = ['model Escape.v hand-written from html.escape / escape_html / XMLExce
 ASSUMPTIONS = ['str.replace with a one-character pattern replaces every occurrence left to right without rescanning',
                'tempita renders literal text verbatim and {{v}} as str(v) / empty for None (checked by correspondence)',
                'a WSGI server never delivers CR or LF inside a header value or the request line',
-               'debug_mode is off (the catch-all of MapProxyApp.__call__ re-raises in debug mode by design)']
+               'debug_mode is off (the catch-all of MapProxyApp.__call__ re-raises in debug mode by design)',
+               'an upstream answer that declares an image content type is an image (single tiles are passed through undecoded)']
 EXPLANATION = ('escaping proved for all strings, skeleton proved for all messages per generated template; implementation driven '
                'through functions, handler classes and the whole WSGI app with hostile inputs')
 
@@ -365,6 +366,62 @@ def oracle_document(ctx, where, body, msg, code_loc, cls, render, rep):
         ctx.fail(where + ',lxml-text', 'lxml reads the text %r for the message %r' % (text, msg), rep)
 
 
+# ----------------------------------------------------------------------------- part B2: the other handler classes
+
+def part_other_handlers(ctx):
+    """PlainExceptionHandler (text/plain, message verbatim) and the two image handlers (oracle only: no markup is
+    produced by them, so there is nothing for the escape model to say)."""
+    try:
+        from mapproxy.exception import RequestError, PlainExceptionHandler
+        from mapproxy.request.wms import WMS111MapRequest, WMS130MapRequest
+        from mapproxy.request.wms.exception import WMSImageExceptionHandler, WMSBlankExceptionHandler
+        from PIL import Image
+    except Exception as e:  # noqa
+        ctx.problem('harness', 'cannot import the plain / image exception handlers: %r' % (e,))
+        return
+    for _ in range(ctx.n(40, 400)):
+        msg = gen_string(ctx.rng)
+        internal = ctx.rng.random() < 0.3
+        rep = {'handler': 'PlainExceptionHandler', 'msg_code_points': cps(msg), 'internal': internal}
+        ctx.case(('plain', msg, internal), any(c in msg for c in SPECIAL))
+        ctx.count('handler=PlainExceptionHandler')
+        try:
+            resp = PlainExceptionHandler().render(RequestError(msg, internal=internal))
+            ct = resp.headers.get('Content-type', '')
+            if not ct.startswith('text/plain') or resp.response != msg or resp.status[:3] != ('500' if internal else '404'):
+                ctx.fail('handler,plain', 'PlainExceptionHandler answers %r %r %r for %r' % (resp.status, ct, resp.response, msg), rep)
+        except Exception as e:  # noqa
+            ctx.fail('handler,raised', 'PlainExceptionHandler.render raised %r' % (e,), rep)
+    for _ in range(ctx.n(60, 600)):
+        msg = gen_string(ctx.rng, maxlen=60)
+        w, h = ctx.rng.choice([1, 2, 17, 64, 256, 257, 301, 512, 1000]), ctx.rng.choice([1, 3, 48, 256, 257, 400, 800])
+        fmt = ctx.rng.choice(['image/png', 'image/jpeg', 'image/gif'])
+        cls = ctx.rng.choice([WMSImageExceptionHandler, WMSBlankExceptionHandler])
+        params = {'width': str(w), 'height': str(h), 'format': fmt, 'layers': 'x', 'styles': '', 'bbox': '0,0,1,1',
+                  'exceptions': 'inimage' if cls is WMSImageExceptionHandler else 'blank'}
+        if ctx.rng.random() < 0.5:
+            params['transparent'] = ctx.rng.choice(['true', 'TRUE', 'false', 'x'])
+        if ctx.rng.random() < 0.5:
+            params['bgcolor'] = ctx.rng.choice(['0xff0000', '0X00ff00', '#0000ff', '0xffffff'])
+        reqcls = ctx.rng.choice([WMS111MapRequest, WMS130MapRequest])
+        rep = {'handler': cls.__name__, 'request_class': reqcls.__name__, 'params': params, 'msg_code_points': cps(msg)}
+        ctx.case(('imagehandler', cls.__name__, msg, tuple(sorted(params.items()))), True)
+        ctx.count('handler=' + cls.__name__)
+        try:
+            req = reqcls(param=params)
+            resp = cls().render(RequestError(msg, request=req))
+            data = resp.response.read() if hasattr(resp.response, 'read') else resp.response
+            im = Image.open(io.BytesIO(data))
+            im.load()
+            ct = resp.headers.get('Content-type', '')
+            if im.size != (w, h):
+                ctx.fail('handler,image-size', '%s: requested %r, image is %r' % (cls.__name__, (w, h), im.size), rep)
+            elif 'image/' + (im.format or '').lower() != ct:
+                ctx.fail('handler,image-type', '%s: declared %r, image is %s' % (cls.__name__, ct, im.format), rep)
+        except Exception as e:  # noqa
+            ctx.fail('handler,image-raised', '%s.render raised / produced an undecodable image: %r' % (cls.__name__, e), rep)
+
+
 # ----------------------------------------------------------------------------- part C: the whole application
 
 CONF = '''
@@ -418,7 +475,7 @@ sources:
 UP = {'mode': 'ok'}
 HOSTILE = ['<c18m>', '"><c18m x="', "'><c18m x='", '</script><c18m>', '&', '&amp;', '&lt;c18m&gt;', '<', '>', '"', "'", '\\',
            '%', '%zz', '%00', '\x00', '\x01', '\x7f', '\t', '\r\n', '\n', ' ', '', 'é', '☃', '\U0001f600', '\xff\xfe',
-           '../../../etc/passwd', '{{exception}}', '-1', '0', '1e400', 'nan', 'inf', '-inf', '99999999999999999999', '1.5', 'abc',
+           '../../../etc/passwd', '{{exception}}', '-1', '0', '300', '1024', '2000', '1e400', 'nan', 'inf', '-inf', '99999999999999999999', '1.5', 'abc',
            ',', ',,,,', '0,0,0,0', '1,2', 'EPSG:0', 'EPSG:', 'EPSG:99999999999', 'image/', 'image/foo', 'text/html', 'png',
            'A' * 300, 'true', 'TRUE', 'inimage', 'blank', 'xml', 'application/vnd.ogc.se_inimage', 'application/vnd.ogc.se_blank',
            '0x', '0xzzzzzz', '#ffffff', '2009-13-45', 'default', 'cached,cached', 'cached,<c18m>', 'direct']
@@ -442,8 +499,8 @@ def build_app(ctx):
             raise H.HTTPClientError('HTTP Error "%s": 500 <c18m> &' % url, response_code=500)
         req = q.get('request', '').lower()
         if UP['mode'] == 'garbage':
-            b = io.BytesIO(b'<html><upstream>not an image &</html>')
-            b.headers = {'Content-type': 'image/png'}
+            b = io.BytesIO(b'<html><upstream>not an image &</html>')     # an error page, honestly declared
+            b.headers = {'Content-type': 'text/html'}
             b.code = 200
             return b
         if req in ('getfeatureinfo', 'feature_info'):
@@ -940,4 +997,5 @@ def run(ctx):
     if table is not None:
         codes, locs, _n = sites
         skeletons = part_handlers(ctx, table, codes, locs)
+    part_other_handlers(ctx)
     part_app(ctx, skeletons)
